@@ -289,6 +289,7 @@ func (namespaceManager *NamespaceManager) GetPrefixMappingForExpansion(uriExpans
 func (namespaceManager *NamespaceManager) GetPrefixToExpansionMap() (result map[string]string) {
 	verifhook.Acquire(namespaceManager.store.database, "ns.lock", namespaceManager)
 	namespaceManager.lock.Lock()
+	verifhook.Access(namespaceManager.store.database, "ns.maps", false)
 	// hand out a copy: callers iterate and serialise the map without holding the lock while
 	// AssertPrefixMappingForExpansion adds entries to the live one
 	result = make(map[string]string, len(namespaceManager.prefixToExpansionMapping))
@@ -447,7 +448,6 @@ func (s *Store) GetGlobalContext(strict bool) *Context {
 	}
 	// TODO: consider caching this. Currently GetGlobalContext is only called once per request so it's not called too often
 	filterdCtx := &Context{ID: "@context", Namespaces: make(map[string]string)}
-	verifhook.Access(s.database, "ns.maps", false)
 	for prefix, expansion := range completeCtx.Namespaces {
 		if strings.HasSuffix(expansion, "#") || strings.HasSuffix(expansion, "/") {
 			filterdCtx.Namespaces[prefix] = expansion
